@@ -303,8 +303,6 @@ ThreadPool::Snapshot ThreadPool::snapshot() const
 
 void ThreadPool::threadProc(ThreadToken thread_token)
 {
-    bool let_main_loop_join_me = false;
-
     LogDbg("thread %u start", thread_token.id());
 
     while (true) {
@@ -318,8 +316,22 @@ void ThreadPool::threadProc(ThreadToken thread_token)
              */
             if ((d_->idle_thread_num >= d_->undo_tasks_cabinet.size()) && (d_->threads_cabinet.size() > d_->min_thread_num)) {
                 LogDbg("thread %u will exit, no more work.", thread_token.id());
-                let_main_loop_join_me = true;
                 CPP_TBOX_VERIF_POINT("tp.w.exit_decide", thread_token.id(), 0);
+
+                /**
+                 * 必须在作出退出决定的同一个临界区内把自己从 threads_cabinet 中移除，并交给 main_loop 去 join()。
+                 * 否则在解锁之后、移除之前：
+                 * - execute() 仍把本线程计入线程数，既不创建新线程也唤不醒任何线程，任务永远得不到执行；
+                 * - cleanup() 会把本线程收走并清空 threads_cabinet，之后再 free() 得到的就是空指针。
+                 */
+                auto t = d_->threads_cabinet.free(thread_token);
+                CPP_TBOX_VERIF_POINT("tp.w.exit_free", thread_token.id(), t != nullptr);
+                if (t != nullptr) {
+                    d_->wp_loop->runInLoop(
+                        [t]{ t->join(); delete t; },
+                        "ThreadPool::threadProc, join and delete it"
+                    );
+                }
                 break;
             }
 
@@ -392,21 +404,7 @@ void ThreadPool::threadProc(ThreadToken thread_token)
     }
 
     LogDbg("thread %u exit", thread_token.id());
-    CPP_TBOX_VERIF_POINT("tp.w.leaving", thread_token.id(), let_main_loop_join_me);
-
-    if (let_main_loop_join_me) {
-        //! 则将线程取出来，交给main_loop去join()，然后delete
-        std::unique_lock<std::mutex> lk(d_->lock);
-
-        auto t = d_->threads_cabinet.free(thread_token);
-        CPP_TBOX_VERIF_POINT("tp.w.exit_free", thread_token.id(), t != nullptr);
-        TBOX_ASSERT(t != nullptr);
-        d_->wp_loop->runInLoop(
-            [t]{ t->join(); delete t; },
-            "ThreadPool::threadProc, join and delete it"
-        );
-        //! 这个操作放到最后来做是为了减少主线程join()的等待时长
-    }
+    CPP_TBOX_VERIF_POINT("tp.w.leaving", thread_token.id(), 0);
 }
 
 bool ThreadPool::createWorker()
